@@ -329,7 +329,7 @@ theorem step_ledger_frame {s s' : State} {op : Op} (h : step s op = some s') (hn
     split at h
     · rename_i s1 hb
       simp only [Option.some.injEq] at h; rw [← h]
-      exact ⟨hv_swaps (beginBlock_hv hb), hv_supply (beginBlock_hv hb)⟩
+      exact ⟨(beginBlock_frame hb).1, (beginBlock_frame hb).2.1⟩
     · contradiction
   | endB =>
     simp only [step] at h
